@@ -22,10 +22,15 @@ T1 == << Decl(1, 17, TRUE, << <<3, FD1>>, <<16, FU>> >>), Decl(2, 46, FALSE, << 
 T2 == << Decl(1, 52, FALSE, <<>>), Decl(5, 11, TRUE, << <<63, FFP>> >>) >>
 TDup == << Decl(3, 36, FALSE, <<>>), Decl(3, 19, FALSE, <<>>) >>
 TBadBytes == <<4, 17, 2, 0, 0, 0>>
-ASec == EncTable(T1) \o EncTable(T2) \o EncTable(TDup) \o TBadBytes
-O2 == Len(EncTable(T1))
-O3 == O2 + Len(EncTable(T2))
-O4 == O3 + Len(EncTable(TDup))
+(* the section as literal bytes (RECURSIVE encoders are not constant-folded by TLC); *)
+(* `LiteralsOk` ties them to the encoders                                           *)
+ASec == <<1,17,1,3,11,16,15,0,0, 2,46,0,3,11,0,0, 0,
+          1,52,0,0,0, 5,11,1,63,25,0,0, 0,
+          3,36,0,0,0, 3,19,0,0,0, 0,
+          4,17,2,0,0,0>>
+O2 == 17
+O3 == 30
+O4 == 41
 OffPool == {0, O2, O3, O4, 1, Len(ASec), Len(ASec) + 3}
 ProbeCodes == <<0, 1, 2, 3, 4, 5, 17>>
 Strats == {"none", "dup", "all"}
@@ -35,7 +40,11 @@ InfoOf(offs) == IF offs = <<>> THEN <<>> ELSE UnitBytes(Head(offs), <<0>>) \o In
 (*----------------------------- die -------------------------------------*)
 TD == << Decl(1, 17, TRUE, << <<3, FD1>>, <<16, FU>> >>), Decl(2, 46, FALSE, << <<3, FD1>> >>),
          Decl(3, 52, FALSE, <<>>), Decl(4, 11, TRUE, << <<63, FFP>>, <<11, FD2>>, <<3, FD1>> >>) >>
-TDBytes == EncTable(TD)
+TDBytes == <<1,17,1,3,11,16,15,0,0, 2,46,0,3,11,0,0, 3,52,0,0,0, 4,11,1,63,25,11,5,3,11,0,0, 0>>
+LiteralsOk == /\ ASec = EncTable(T1) \o EncTable(T2) \o EncTable(TDup) \o TBadBytes
+              /\ O2 = Len(EncTable(T1)) /\ O3 = O2 + Len(EncTable(T2)) /\ O4 = O3 + Len(EncTable(TDup))
+              /\ TDBytes = EncTable(TD)
+              /\ ParseTable(TDBytes, 1, <<>>) = [ok |-> TRUE, decls |-> TD]
 Toks == { <<1, 7, 133, 1>>, <<2, 9>>, <<3>>, <<4, 52, 18, 5>>, <<0>>, <<9>>, <<2>> }
 RECURSIVE Flat(_)
 Flat(ts) == IF ts = <<>> THEN <<>> ELSE Head(ts) \o Flat(Tail(ts))
@@ -60,18 +69,17 @@ InvCache ==
 
 InvDie ==
     LET b  == Flat(c.toks)
-        p  == ParseTable(TDBytes, 1, <<>>)
-        d  == p.decls
+        d  == TD
         raw == RawAll(b, d, [pos |-> 1, depth |-> 0], NullEntry, Fuel)
         full == Traverse(b, d, NewTree, 100)
         n  == Len(c.toks) + 1 IN
-    /\ p.ok /\ d = TD
+    /\ (c.toks = <<>> => LiteralsOk)
     /\ BufferOk(raw)
     (* re-rooting after any partial traversal = traversal of a new tree *)
     /\ \A j \in 0..n : LET part == Traverse(b, d, NewTree, j)
                            again == Traverse(b, d, part.t, 100) IN
                        again.out = full.out /\ again.st = full.st
-    /\ PrintT(<<"CASE", ToJson(
+    /\ Len(c.toks) > 0 => PrintT(<<"CASE", ToJson(      \* (a unit without any DIE is C02's business)
          [sys |-> "die", abbrev |-> TDBytes, info |-> UnitBytes(0, b), ntok |-> Len(c.toks), fuel |-> Fuel,
           raw |-> [j \in DOMAIN raw |-> [res |-> raw[j].res, e |-> raw[j].fresh]],
           entries |-> Drive(b, d, NewCursor, "entry", Fuel),
